@@ -18,6 +18,9 @@ def profiles(seed):
     h = numpy.sort(rng.uniform(0, 20000, 40)); h[0] = 0
     yield "random", h, rng.uniform(0, 1, 40) * 1e-13, rng.uniform(2, 40, 40)
     yield "geometric", 10. * 1.15 ** numpy.arange(40), rng.uniform(0.1, 1, 40), rng.uniform(2, 40, 40)
+    yield "integer-grid", numpy.arange(0, 25000, 250), numpy.full(100, 1e-15), numpy.arange(5, 105)
+    hz = numpy.arange(10) * 2000.; pz = numpy.zeros(10); pz[[1, 4, 5, 8]] = [3., 1., 2., 4.]
+    yield "mostly-empty bins", hz, pz, numpy.full(10, 10.)
     yield "si-units", numpy.linspace(0, 24000, 49), 4e-13 * numpy.exp(-numpy.linspace(0, 24000, 49) / 1500.) / 30, numpy.full(49, 12.)
 
 
@@ -53,6 +56,24 @@ def cost(groups, h, p):
 
 
 def chk_grouping(inp):
+    # more target layers than turbulent bins (the other bins have zero strength): still exactly L layers, nothing dropped
+    hz = numpy.arange(10) * 2000.; pz = numpy.zeros(10); pz[[1, 4, 5, 8]] = [3., 1., 2., 4.]
+    for L in (2, 4, 5, 7, 9):
+        try:
+            hL, cL = PC.optimal_grouping(1, L, hz.copy(), pz.copy())
+        except Exception as ex:
+            return bad("optimal_grouping(10 bins of which 4 turbulent, L=%d) raises %s: %s" % (L, type(ex).__name__, str(ex)[:80]), type(ex).__name__, "%d layers" % L)
+        if len(hL) != L or len(cL) != L or abs(numpy.sum(cL) - pz.sum()) > 1e-12 * pz.sum() or numpy.any(numpy.asarray(cL) < 0):
+            return bad("optimal_grouping(10 bins of which 4 turbulent, L=%d): not exactly L non-negative layers conserving the total" % L, [len(hL), float(numpy.sum(cL))], [L, float(pz.sum())])
+    hu = numpy.array([0, 3400, 3600, 13900, 14800]); pu = numpy.array([9., 9., 8., 3., 1.])
+    hu2 = numpy.array([0, 100, 200, 5000, 5100, 5200, 12000, 12100]); pu2 = numpy.array([5., 1., 1., 1., 5., 1., 1., 5.])
+    for hh, pp, L in ((hu, pu, 2), (hu2, pu2, 3)):
+        ref = PC.optimal_grouping(0, L, hh.astype(float), pp)
+        for dt in ("uint16", "uint32", "uint64", "int32", "int64", "float32"):
+            got = PC.optimal_grouping(0, L, hh.astype(dt), pp)
+            if not (numpy.array_equal(numpy.asarray(got[0], dtype=float), numpy.asarray(ref[0], dtype=float)) and numpy.allclose(got[1], ref[1])):
+                return bad("optimal_grouping with %s heights %s (L=%d) does not return the grouping it returns for the same heights as floats" % (dt, hh.tolist(), L),
+                           [numpy.asarray(got[0], dtype=float).tolist(), numpy.asarray(got[1]).tolist()], [numpy.asarray(ref[0]).tolist(), numpy.asarray(ref[1]).tolist()])
     for name, h, p, w in profiles(2):
         N = len(h)
         for L in (1, 2, 4, 8):
